@@ -20,6 +20,7 @@ def check(chk, thorough=False):
     chk.run('C02.b', 'R-FLOW', 'a bundle encodes as 0x9f, each block item encoded on its own, 0xff; primary first; new blocks go before the payload, which is number 1', lambda ob: c02b(tree, ob), floor=4)
     chk.run('C02.c', 'sibling', 'encoder and decoder of every field / wrapper / packet kind are defined together and agree (order, frames, scheme tables)', lambda ob: c02c(tree, ob), floor=15)
     chk.run('C02.e', 'R-TRUTH', 'conversions preserve values: no truthiness test on a converted value, decoded flag/enum integers wrapped unchanged, plain IntFlag enums, unnormalised EID parts, exact time arithmetic', lambda ob: c02e(tree, ob), floor=20)
+    chk.run('C02.f', 'sibling', 'checking a CRC leaves the block as it was: update_crc / check_crc agree and the received value is restored (= C08.c)', lambda ob: __import__('sa.props.c08', fromlist=['c08c']).c08c(tree, ob), floor=8)
     chk.run('C02.d', 'R-PAIR', 'encoded block data wins and is regenerated from the parsed payload only when absent; builders ensure it; admin records are reflected in flag, type and data and re-attached only under the admin flag', lambda ob: c02d(tree, ob), floor=7)
 
 
@@ -151,7 +152,27 @@ def _defined(tree, rel, cls, meth):
     return meth in tree.methods(rel, cls)
 
 
+def _plain_encoder(tree, ob):
+    ''' decode followed by encode gives the octets that arrived only if the encoder keeps what the decoder produced: map
+    entries in arrival order, values as they are.  Every cbor2.dumps() of the encoding layer is the plain call; an option
+    such as canonical=True re-orders the maps of payloads this code merely carries (unknown administrative records,
+    extension blocks), and a forwarded block no longer matches its CRC. '''
+    n = 0
+    for rel in sorted(r for r in tree.modules if r.startswith('scapy_cbor/') or r.startswith('bp/encoding/')):
+        for (r, qual, func) in tree.all_functions([rel]):
+            for c in calls_in(func):
+                if (call_name(c) or '') in ('cbor2.dumps', 'dumps', 'cbor2.dump'):
+                    n += 1
+                    if c.keywords or len(c.args) != 1:
+                        ob.violate(rel, qual, src(c)[:70], 'the encoder of the encoding layer is called with options ({}): what was decoded is not written back as it was '
+                                   '(canonical ordering re-sorts maps inside data the node only carries)'.format(', '.join(k.arg or '**' for k in c.keywords) or 'extra arguments'), c)
+                    else:
+                        ob.site(rel, c, qual + ': plain cbor2.dumps')
+    ob.require(n >= 5, 'cbor2.dumps calls in the encoding layer: {}'.format(n))
+
+
 def c02c(tree, ob):
+    _plain_encoder(tree, ob)
     # field classes: i2m/m2i overridden together
     for rel in (CFLD, FIELDS):
         for node in tree.module(rel).tree.body:
@@ -276,7 +297,34 @@ def c02c(tree, ob):
         ob.site(FIELDS, wk[0], 'dtn:none <-> [1, 0]')
 
 
+def _own_type_accepted(tree, ob):
+    ''' reserved flag bits and unassigned enumeration values are carried, not refused: FlagsField / EnumField set maxval from
+    the members they know, and a received integer above it is still an integer of the field.  The guards of UintField's
+    decode path are folded for such items (maxval taken as 7): none may refuse. '''
+    from .. import absint
+    rel = 'scapy_cbor/fields.py'
+    cls = tree.klass(rel, 'UintField')
+    meths = {m.name: m for m in cls.body if isinstance(m, ast.FunctionDef)}
+    for item in (8, 0x20, 1 << 21, (1 << 64) - 1):
+        refused = None
+        for mname in ('getfield', 'm2i'):
+            m = meths.get(mname)
+            if m is None or len(m.args.args) != 3:
+                continue
+            env = {m.args.args[2].arg: [item] if mname == 'getfield' else item}
+            out = absint.run(m.body, env, {'self.maxval': 7, 'self.name': 'field'})
+            if out.kind == 'raise' or (out.kind == 'return' and out.value is None):
+                refused = (m, out)
+                break
+        if refused:
+            ob.violate(rel, 'UintField.' + refused[0].name, 'item {:#x} with maxval 7'.format(item), 'an integer above the largest known flag / enumeration value is refused on decode: a block or bundle that '
+                       'carries a reserved flag bit cannot be decoded at all, let alone re-encoded unchanged', refused[1].node or refused[0])
+        else:
+            ob.site(rel, cls, 'UintField decodes {:#x} whatever the known maximum'.format(item))
+
+
 def c02e(tree, ob):
+    _own_type_accepted(tree, ob)
     # an EID is text with its own grammar (RFC 9171: the dtn demux is any visible characters), not a URL to be taken apart
     # and put together again: URL splitting drops the query and fragment parts and removes control characters
     for meth in ('i2m', 'm2i'):
@@ -284,6 +332,12 @@ def c02e(tree, ob):
         if not got or got[1].name != 'EidField':
             continue
         lossy = [c for c in calls_in(got[2]) if (call_name(c) or '').split('.')[-1] in ('urlsplit', 'urlparse', 'urlunsplit', 'urlunparse')]
+        recode = [c for c in calls_in(got[2]) if (call_name(c) or '').split('.')[-1] in ('unquote', 'quote', 'unquote_plus', 'quote_plus', 'unquote_to_bytes', 'quote_from_bytes', 'normalize', 'idna', 'casefold')]
+        if meth == 'm2i':
+            recode += [c for c in calls_in(got[2]) if isinstance(c.func, ast.Attribute) and c.func.attr in ('lower', 'upper', 'casefold', 'strip', 'lstrip', 'rstrip', 'replace', 'translate')]
+        for c in recode:
+            ob.violate(FIELDS, 'EidField.' + meth, src(c)[:60], 'the text of an EID is re-coded on its way ({}): EIDs that differ on the wire become equal (or the other way round), so a destination matches '
+                       'another route, two sources collapse into one bundle identity, and a re-encoded block no longer matches its CRC'.format((call_name(c) or '').split('.')[-1]), c)
         if lossy:
             ob.violate(FIELDS, 'EidField.' + meth, src(lossy[0])[:60], "the EID is rebuilt from the parts of a URL split: 'dtn://node/app?x=1' is encoded as '//node/app' (the bundle is forwarded to "
                        'another destination; with a primary CRC the valid received bundle fails its CRC after re-encoding)', lossy[0])
@@ -390,17 +444,21 @@ def c02d(tree, ob):
     if tree.has_func('scapy_cbor/packets.py', 'TypeValueHead.do_dissect_payload'):
         ft = FuncView(tree, 'scapy_cbor/packets.py', 'TypeValueHead.do_dissect_payload')
         adds = [c for c in calls_in(ft.func) if pm('self.add_payload(CborItem(item=$s))', c) is not None]
-        okf = False
-        for a in adds:
-            facts = ft.facts(a) or frozenset()
-            # scapy's own do_dissect_payload does nothing for a falsy value: the explicit add must cover every falsy value
-            if any(p is False and t in ('s',) for (t, p) in facts):
-                okf = True
-        if okf:
+        inherited = [c for c in calls_in(ft.func) if isinstance(c.func, ast.Attribute) and c.func.attr == 'do_dissect_payload' and c is not ft.func]
+        dl = one(inherited, 'inherited do_dissect_payload call in TypeValueHead', ob)
+        item = src(dl.args[-1])
+        # scapy's own do_dissect_payload does nothing for a falsy value, and dissect() takes a byte string for an encoding
+        # still to be decoded: neither may reach it; both get the explicit opaque payload instead
+        if adds and (ft.has(dl, item, True) or any(ft.has(a, item, False) for a in adds)):
             ob.site('scapy_cbor/packets.py', adds[0], 'falsy content items get an explicit payload')
         else:
             ob.violate('scapy_cbor/packets.py', ft.qual, 'if not s: self.add_payload(CborItem(item=s))', 'a record whose content item is falsy (0, false, empty string / list / map) gets no payload object and is '
                        're-encoded as [type, null]', ft.func)
+        if adds and ft.has(dl, 'isinstance({}, bytes)'.format(item), False):
+            ob.site('scapy_cbor/packets.py', dl, 'a byte string content item is kept as an item')
+        else:
+            ob.violate('scapy_cbor/packets.py', ft.qual, src(dl) + '  (reached with a byte string)', 'a content item that is a byte string is handed to dissect(), which decodes bytes as an encoding: '
+                       '[type, h\'05\'] becomes [type, 5], so a forwarded record leaves with another payload than it arrived with', dl)
     # the payload is decoded as an administrative record only when it is a whole one, and a record this node cannot
     # interpret stays opaque (as undecodable block-type-specific data does) instead of making the bundle undecodable
     fb = FuncView(tree, BUNDLE, 'Bundle.post_dissect')
